@@ -13,6 +13,7 @@ import ASV.Proofs.RegionsRingShort
 import ASV.Proofs.RegionsGiven
 import ASV.Proofs.RegionsRingOne
 import ASV.Proofs.RegionsRingNear
+import ASV.Proofs.RegionsRingUnion
 namespace ASV.C06
 open ASV ASV.Regions ASV.Components
 
@@ -304,6 +305,28 @@ example : ∀ f ∈ nearDemo.cands ++ nearDemo.subs, NearOrigin 100 nearDemo.len
 example : (createRegions nearDemo).toOption.map (fun s => s.regions.map view) =
     some [(.compound [⟨900, 1000, .fwd⟩, ⟨0, 60, .fwd⟩], [], [0, 4, 1, 2]), (.simple ⟨70, 90, .fwd⟩, [], [3])] := by
   decide +kernel
+
+/-- **Region location on a ring = exactly the union of its members** (`_partial`: hypothesis `ArcUnions`,
+    conditional on `create_regions` returning): base `i` lies in a region's location iff it lies in one of the areas
+    the region lists — not merely "shortest covering arc".  With an origin-spanning member this is
+    `connect_ring_exact` applied to `Region.__init__`'s own `connect_locations` call (wrap point = record length,
+    `regionWrap_ring`); without one the location is the line hull, which is the union because the members were
+    grown by joining overlapping families (`joined_line_union`). -/
+theorem ring_region_location_is_union_partial (s s' : State) (hcirc : s.circular = true) (hL : 0 < s.len)
+    (hi : Inv s) (hreg : s.regions = []) (hring : ∀ f ∈ s.cands ++ s.subs, RingArea s.len f.loc)
+    (harc : ArcUnions s.len (s.cands ++ s.subs)) (h : createRegions s = .ok s') :
+    ∀ r ∈ s'.regions, ∀ i, r.loc.mem i = true ↔
+      ∃ f ∈ s.cands ++ s.subs, f.id ∈ memberIds r ∧ f.loc.mem i = true :=
+  ring_region_union s s' hcirc hL hi hreg hring harc h
+
+/-- … without the hypothesis on unions for layouts in the near-origin window (`4 W < L`) -/
+theorem ring_region_location_is_union_near_origin (s s' : State) (W : Int) (hcirc : s.circular = true)
+    (hW : 0 < W) (hWL : 4 * W < s.len) (hi : Inv s) (hreg : s.regions = [])
+    (hnear : ∀ f ∈ s.cands ++ s.subs, NearOrigin W s.len f.loc) (h : createRegions s = .ok s') :
+    ∀ r ∈ s'.regions, ∀ i, r.loc.mem i = true ↔
+      ∃ f ∈ s.cands ++ s.subs, f.id ∈ memberIds r ∧ f.loc.mem i = true :=
+  ring_region_union s s' hcirc (by omega) hi hreg (fun f hf => (hnear f hf).ringArea hW hWL)
+    (arcUnions_near_origin hW hWL hnear) h
 
 /-! ### `create_regions(candidate_clusters=…, subregions=…)`: regions are built from exactly the given areas -/
 
